@@ -16,7 +16,7 @@ META = {
         "quick": "every catalogue unit alone (4 elements), chains of 2 core units (3 elements), diamonds and "
                  "2/3-source joins (3-4 elements); each element carries 0, 1 or 2 metadata dicts (symbolic); "
                  "asynchronous nodes: 3 elements through buffer/delay/rate_limit/timed_window/partition(timeout)/map_async",
-        "thorough": "units alone 6 elements (4 where values are inspected), all 1282 type-compatible chains of 2 (3 elements)",
+        "thorough": "units alone 6 elements (4 where values are inspected), chains of 2 core units with 3 key values (3 elements)",
     },
     "outside": ["metadata objects that are not lists of dicts", "Dask scatter/gather (see C20)"],
     "stubs": ["event loop: engine/vloop.py"],
@@ -120,12 +120,12 @@ def obligations(tier):
     for n3 in ("punique3_last", "punique3_first"):
         obls.append(_obl("A/%s/k=4/one-dict-each" % n3, {"template": "chain", "units": [n3], "small": True,
                                                        "nmd_range": (1, 1)}, 4, B))
-    for ch in (SP.chains(2, SP.CORE) if q else SP.chains(2)):
+    for ch in SP.chains(2, SP.CORE):
         small = SP.inspects(ch)
         kk = 3
         obls.append(_obl("B/chain/%s/k=%d" % ("+".join(ch), kk),
                          {"template": "chain", "units": list(ch), "small": small,
-                          "dom": 1}, kk, B, flush=("collect" in ch)))
+                          "dom": 1 if q else 2}, kk, B, flush=("collect" in ch)))
     if False:
         for ch in SP.chains(3, SP.CORE):
             if "collect" in ch and SP.hashes(ch):
